@@ -40,6 +40,9 @@ func runCmd(args []string) {
 	logdir := fs.String("log", "", "smt log dir")
 	arch := fs.String("arch", "", "GOARCH for loading")
 	thorough := fs.Bool("thorough", false, "thorough tier")
+	short := fs.Int("short", 2000, "first-stage timeout ms")
+	fallback := fs.String("fallback", "z3-new,cvc5-int", "fallback solvers (fresh, stateless), comma separated")
+	guide := fs.Bool("guide", true, "model-guided branching")
 	fs.Parse(args)
 	t0 := time.Now()
 	p, err := sym.Load(*repo, *hroot, *arch)
@@ -55,7 +58,7 @@ func runCmd(args []string) {
 			os.Exit(2)
 		}
 		cfg := sym.Config{Solver: *solver, TimeoutMs: *tmo, Workers: *workers, MaxSteps: 20000000, LoopBound: *loop, Preempt: 2,
-			TraceExec: *trace, MaxPaths: *maxp, LogDir: *logdir, Thorough: *thorough, Known: map[string]bool{}, Params: map[string]int{}}
+			TraceExec: *trace, MaxPaths: *maxp, LogDir: *logdir, Thorough: *thorough, Known: map[string]bool{}, Params: map[string]int{}, ShortMs: *short, Fallback: *fallback, ModelGuide: *guide}
 		ex := sym.NewExplorer(p, fn, cfg)
 		t1 := time.Now()
 		ex.Run()
@@ -66,5 +69,3 @@ func runCmd(args []string) {
 		}
 	}
 }
-
-func checkCmd(args []string) int { return 2 }
